@@ -9,7 +9,7 @@ for d in seeded/*/; do
   s=$(basename $d); prop=${s%%-*}
   checks=$prop
   # seeds that break their property in a way another property's monitor is the one to see (see each meta.json)
-  case $s in C09-m2|C09-m5|C11-m6) checks="C14";; C12-m6) checks="C11";; C08-m9) checks="C05";; C10-m9) checks="C08";; C01-m9) checks="C18";; esac
+  case $s in C09-m2|C09-m5|C11-m6) checks="C14";; C12-m6) checks="C11";; C08-m9) checks="C05";; C10-m9) checks="C08";; C01-m9|C02-m7) checks="C18";; esac
   for c in $checks; do
     if git -C /repo apply --check /verif/$d/patch.diff 2>/dev/null; then
       git -C /repo apply /verif/$d/patch.diff
